@@ -41,6 +41,8 @@ class QuaToSM(ConvertBase):
         sms.background = qua.background_file
         sms.sample_start = qua.song_preview_time
         sms.sample_length = 10
-        sms.offset = qua.stack().offset.min()
+        # The .sm offset is where beat 0 is, i.e. the first timing point (a scroll
+        # velocity may well come earlier)
+        sms.offset = float(qua.bpms.offset.min()) if len(qua.bpms) else 0.0
 
         return sms
